@@ -157,7 +157,9 @@ type Job struct {
 	Scale       bool              `json:"scale_invariant,omitempty"` // counterexamples may be scaled to integers
 	Cube        int               `json:"cube,omitempty"`            // number of nonlinear polynomials to case-split by sign
 	NoCover     bool              `json:"-"`
-	LatticeOnly int               `json:"lattice_only,omitempty"` // if >0: only search integer coordinates |c| <= bound (bug hunting on the lattice, no claim beyond it)
+	Abstract    bool              `json:"abstract_floats,omitempty"` // harness runs with uninterpreted float arithmetic: cover witnesses are not replayed natively
+	Combine     bool              `json:"combine,omitempty"`         // one query per path: the disjunction of all assertion violations
+	LatticeOnly int               `json:"lattice_only,omitempty"`    // if >0: only search integer coordinates |c| <= bound (bug hunting on the lattice, no claim beyond it)
 	NoLattice   bool              `json:"-"`
 	Note        string            `json:"note,omitempty"`
 }
@@ -171,22 +173,25 @@ func (j Job) key() string {
 }
 
 type OblResult struct {
-	Job     string `json:"job"`
-	Kind    string `json:"kind"`
-	Label   string `json:"label"`
-	Pos     string `json:"pos,omitempty"`
-	Status  string `json:"status"`
-	Ms      int64  `json:"ms"`
-	Solver  string `json:"solver,omitempty"`
-	Size    int    `json:"term_nodes,omitempty"`
-	Path    []int  `json:"fork_path,omitempty"`
-	Cubes   int    `json:"cubes,omitempty"`
-	Lattice int    `json:"lattice,omitempty"`
-	model   map[string]string
-	traces  map[string]string
-	job     *Job
-	verdict string // ok | violation | inconclusive | known
-	detail  string
+	Job        string `json:"job"`
+	Kind       string `json:"kind"`
+	Label      string `json:"label"`
+	Pos        string `json:"pos,omitempty"`
+	Status     string `json:"status"`
+	Ms         int64  `json:"ms"`
+	Solver     string `json:"solver,omitempty"`
+	Size       int    `json:"term_nodes,omitempty"`
+	Path       []int  `json:"fork_path,omitempty"`
+	Cubes      int    `json:"cubes,omitempty"`
+	Lattice    int    `json:"lattice,omitempty"`
+	N          int    `json:"combined_assertions,omitempty"`
+	combLabels []string
+	combOff    int
+	model      map[string]string
+	traces     map[string]string
+	job        *Job
+	verdict    string // ok | violation | inconclusive | known
+	detail     string
 }
 
 type JobResult struct {
@@ -263,6 +268,7 @@ func resetTerms() {
 func resetTermStore() {
 	TS.resetKeepConsts()
 	polyCache = map[int]*Poly{}
+	cmpCache = map[string]*Term{}
 	freshCtr = 0
 	resetTerms()
 }
@@ -424,7 +430,31 @@ func (r *Runner) runJob(job Job) *JobResult {
 				traceN = append(traceN, tr.label)
 			}
 		}
-		for _, ob := range p.obligs {
+		obligs := p.obligs
+		var combined []*Obligation
+		if job.Combine {
+			var fs []*Term
+			var rest []*Obligation
+			for _, ob := range p.obligs {
+				if ob.Kind == "assert" || ob.Kind == "panic" {
+					if ob.Formula != tFalse {
+						fs = append(fs, ob.Formula)
+						combined = append(combined, ob)
+					} else {
+						rest = append(rest, ob)
+					}
+				} else {
+					rest = append(rest, ob)
+				}
+			}
+			if len(combined) > 1 {
+				rest = append(rest, &Obligation{Kind: "assert", Label: "combined", Formula: Or(fs...), Pos: combined[0].Pos})
+				obligs = rest
+			} else {
+				combined = nil
+			}
+		}
+		for _, ob := range obligs {
 			if ob.Kind == "cover" && job.NoCover {
 				continue
 			}
@@ -439,6 +469,14 @@ func (r *Runner) runJob(job Job) *JobResult {
 			}
 			gv := append([]*Term{}, getT...)
 			gv = append(gv, traceT...)
+			if ob.Label == "combined" && combined != nil {
+				res.N = len(combined)
+				for _, cb := range combined {
+					gv = append(gv, cb.Formula)
+					res.combLabels = append(res.combLabels, cb.Label)
+				}
+				res.combOff = len(getT) + len(traceT)
+			}
 			script := Script([]*Term{ob.Formula}, ScriptOpts{GetValues: gv})
 			q := &pendingQuery{res: res, script: script, getvals: names, timeout: timeout, kind: ob.Kind}
 			// integer re-query script (for replayable models) for real-valued inputs
@@ -528,6 +566,15 @@ func (r *Runner) solveOne(q *pendingQuery, traceNames []string) {
 		if ok {
 			q.res.model = model
 			q.res.traces = extractTraces(sr, len(q.getvals), traceNames)
+			if q.res.combLabels != nil {
+				for i, l := range q.res.combLabels {
+					k := q.res.combOff + i
+					if k < len(sr.values) && sr.values[k].atom == "true" {
+						q.res.Label = l
+						break
+					}
+				}
+			}
 		} else {
 			q.res.detail = "model not representable as float64"
 		}
